@@ -943,6 +943,35 @@ func genC10(g *Gen) {
 		p.Clients = append(p.Clients, cp)
 	}
 	p.Sched.MaxSteps = 8000
+	if p.Variant == "connloss" {
+		// the connection to a node is lost right when the client has handed over a request for it - before the proxy's deferred
+		// write ran - and the client's next request comes in a read of its own: whatever the proxy does with the unwritten
+		// fragment, the node must never see that client's requests out of order
+		p.Faulty = true
+		p.Proxy.DisableSlave = true
+		g.cleanKernel()
+		p.Sched.ChunkPct = 0
+		for ci := range p.Clients {
+			c := &p.Clients[ci]
+			c.Chunks = nil
+			for _, r := range c.Reqs {
+				c.Chunks = append(c.Chunks, len(r.Raw)) // one request per segment
+			}
+		}
+		for k := g.R.Range(1, 3); k > 0; k-- {
+			ci := g.R.Intn(len(p.Clients))
+			var cand []int
+			for ri, r := range p.Clients[ci].Reqs {
+				if r.Class == "single" && ri+1 < len(p.Clients[ci].Reqs) {
+					cand = append(cand, ri)
+				}
+			}
+			if len(cand) == 0 {
+				continue
+			}
+			p.Events = append(p.Events, Event{Kind: "kill-conn", When: When{Token: Tok(ci, cand[g.R.Intn(len(cand))]), Phase: "sent"}, Rst: g.R.Pct(50)})
+		}
+	}
 }
 
 func reqIndexOfToken(t string) (ci, ri int) {
@@ -974,11 +1003,18 @@ func checkC10(d *Driver, res *Result) {
 		last[k] = ri
 		crossings++
 	}
-	d.StdReplyCheck("C10", Relax{})
+	if d.P.Faulty {
+		d.StdReplyCheck("C10", Relax{AllowProxyError: true, AllowMissingClosed: true})
+	} else {
+		d.StdReplyCheck("C10", Relax{})
+	}
 	for _, c := range d.Clients {
 		for i := range c.Plan.Reqs {
 			rq := &c.Plan.Reqs[i]
 			if rq.Class == "single" && rq.Expect != nil && i > 0 && c.Plan.Reqs[i-1].Cmd == "set" && c.Plan.Reqs[i-1].Keys[0] == rq.Keys[0] {
+				if d.P.Faulty && (i-1 >= len(c.Replies) || string(c.Replies[i-1]) != ROK || i >= len(c.Replies) || (len(c.Replies[i]) > 0 && c.Replies[i][0] == '-')) {
+					continue // the write (or the read) failed with the lost connection: nothing to observe
+				}
 				// the statement is about a write and a read that are both served by the master
 				atMaster := false
 				for _, r := range d.recsFor(rq.Tok) {
